@@ -233,7 +233,12 @@ func runOrder(c *mc.Ctx) {
 				}
 			}
 			if err != nil || got != digest(base) {
-				c.Violation("plain-build-differs-from-canonical-order:"+mc.Hash(sc.Name), fmt.Sprintf("a fresh process of the un-rewritten build gives different bytes than the canonical-order run although no order-dependence was detected: %s (%v, %s vs %s)", sc.Name, err, got, digest(base)), replay{Scenario: sc.Name})
+				key := "plain-build-differs-from-canonical-order:" + mc.Hash(sc.Name)
+				if strings.HasPrefix(sc.Name, "process-state:") {
+					// the worker process has run other scenarios before: state they left behind changes this one
+					key = "process-state:" + strings.SplitN(strings.TrimPrefix(sc.Name, "process-state:"), " ", 2)[0] + ":differs-from-a-fresh-process"
+				}
+				c.Violation(key, fmt.Sprintf("a fresh process of the un-rewritten build gives different bytes than the canonical-order run although no order-dependence was detected: %s (%v, %s vs %s)", sc.Name, err, got, digest(base)), replay{Scenario: sc.Name})
 			}
 		} else {
 			c.Inc("plain_crosschecks_skipped_order_dependent")
